@@ -3,4 +3,5 @@ let lookup (p : string) : Model.val0 -> Model.val0 =
   match p with
   | "C05" -> Model.run_C05
   | "C17" -> Model.run_C17
+  | "C08" -> Model.run_C08
   | _ -> failwith ("unknown property " ^ p)
